@@ -213,7 +213,7 @@ private:
         variable_t ghost_y = get_ghost_var(y, coefficient);
         m_base_absval.assign(ghost_x, ghost_y);
         return;
-      } else if ((z % tracked_coefficient) == 0) {
+      } else if (z == tracked_coefficient) {
         // rewrite("x := COEF * y") = "x/COEF := y"
         m_base_absval.assign(ghost_x, y);
         return;
@@ -224,10 +224,12 @@ private:
         variable_t ghost_y = get_ghost_var(y, coefficient);
         m_base_absval.assign(ghost_x, ghost_y);
         return;
-      } else if ((z % tracked_coefficient) == 0) {
+      } else if (z == tracked_coefficient) {
         // rewrite("x := y/COEF") =  "x := y/COEF"
         variable_t ghost_y = get_ghost_var(y, coefficient);
         m_base_absval.assign(x, ghost_y);
+        // nothing is known about the new x/COEF
+        m_base_absval -= ghost_x;
         return;
       }
     }
